@@ -209,6 +209,9 @@ func (f *Frame) scanNode(n ast.Node, t *Targets, seen map[*ast.FuncDecl]bool, de
 			var callees []*FuncInfo
 			if sig := fn.Type().(*types.Signature); sig.Recv() != nil {
 				if _, isI := sig.Recv().Type().Underlying().(*types.Interface); isI {
+					if fn.Pkg() != nil && f.vc.prog.PurePkgs[fn.Pkg().Path()] {
+						return true // interface method of a package declared pure (go/types): no effect, as at the call itself
+					}
 					if fi := f.vc.prog.Funcs[fn.Origin()]; fi == nil || fi.Kind != KContract {
 						impls := f.implsOf(fn)
 						if len(impls) == 0 {
@@ -794,8 +797,15 @@ func (f *Frame) rangeLoop(st *State, s *ast.RangeStmt, label string) []Outcome {
 			if iterElem == nil || s.Value != nil {
 				vc.fail(s.Pos(), "range over a function is supported only for func(yield func(T) bool)")
 			}
-			it := f.expr(st, s.X)
-			seq = vc.define("rangeX", f.yieldSeq(it, iterElem))
+			if se, ok := ast.Unparen(s.X).(*ast.SelectorExpr); ok && f.isMethodValue(se) {
+				// `range q.Iter` over a method value (e.g. a queue drained while it is refilled): the yielded
+				// sequence is an arbitrary one - nothing is known about it beyond what ghost statements assume
+				f.expr(st, se.X)
+				seq = vc.fresh("rangeX", SliceSort(f.sortOf(iterElem)))
+			} else {
+				it := f.expr(st, s.X)
+				seq = vc.define("rangeX", f.yieldSeq(it, iterElem))
+			}
 			n = SLen(seq)
 			vc.dropped["range over an iterator function: executed over the sequence its contract yields (the body is assumed not to influence the iterator)"]++
 		} else if b, ok := u.(*types.Basic); ok {
@@ -1009,4 +1019,10 @@ func (f *Frame) yieldSeq(it Term, elem types.Type) Term {
 		vc.funDecls = append(vc.funDecls, fmt.Sprintf("(declare-fun %s (%s) %s)", name, it.Sort, SliceSort(es)))
 	}
 	return app(SliceSort(es), name, it)
+}
+
+// isMethodValue: the selector denotes a bound method (x.M used as a value).
+func (f *Frame) isMethodValue(se *ast.SelectorExpr) bool {
+	sel, ok := f.info().Selections[se]
+	return ok && sel.Kind() == types.MethodVal
 }
